@@ -603,12 +603,12 @@ func expandHelpers(modPkgs []*packages.Package, fset *token.FileSet, readSrc fun
 						if prefix, res, ok := expand(call, c, recv, th); ok && len(res) == len(as.Lhs) {
 							// { <expansion>; if lhs := results; cond { ... } }
 							l0 := fset.PositionFor(x.Pos(), false).Line
-							edits = append(edits, textEdit{off(x.Pos()), off(x.Pos()), "{ " + decl + prefix + fmt.Sprintf("\n//line %s:%d:1\n", fname, l0)})
 							if th != nil && th.all && th.n > 0 {
 								// only the success path reaches this point: the if (whose body handled failures) becomes the plain assignment
-								edits = append(edits, textEdit{off(x.Pos()), off(x.End()), strings.Join(th.lhs, ", ") + " = " + strings.Join(res, ", ") + strings.Repeat("\n", strings.Count(text(x.Pos(), x.End()), "\n")) + " }"})
+								edits = append(edits, textEdit{off(x.Pos()), off(x.End()), "{ " + decl + prefix + fmt.Sprintf("\n//line %s:%d:1\n", fname, l0) + strings.Join(th.lhs, ", ") + " = " + strings.Join(res, ", ") + strings.Repeat("\n", strings.Count(text(x.Pos(), x.End()), "\n")) + " }"})
 								continue
 							}
+							edits = append(edits, textEdit{off(x.Pos()), off(x.Pos()), "{ " + decl + prefix + fmt.Sprintf("\n//line %s:%d:1\n", fname, l0)})
 							if th != nil {
 								edits = append(edits, textEdit{off(as.Pos()), off(as.End()), strings.Join(th.lhs, ", ") + " = " + strings.Join(res, ", ")})
 							} else {
@@ -632,6 +632,30 @@ func expandHelpers(modPkgs []*packages.Package, fset *token.FileSet, readSrc fun
 						handleList(x.Body)
 					case *ast.CommClause:
 						handleList(x.Body)
+					}
+					return true
+				})
+			}
+			// expression helpers: a helper whose body is a single `return <expression>` is also expanded where it is called
+			// inside a larger expression, by substituting the (side-effect free) arguments for the parameters
+			for _, d := range f.Decls {
+				fd, ok := d.(*ast.FuncDecl)
+				if !ok || fd.Body == nil {
+					continue
+				}
+				ast.Inspect(fd.Body, func(n ast.Node) bool {
+					call, ok := n.(*ast.CallExpr)
+					if !ok {
+						return true
+					}
+					c, recv := calleeOf(call)
+					if c == nil || recv != nil || c.fd.Recv != nil || c.fd.Type.TypeParams != nil {
+						return true
+					}
+					if repl, ok := exprExpansion(call, c, info, fset, readSrc, c.file == f, callerPkgs); ok {
+						nl := strings.Count(text(call.Pos(), call.End()), "\n")
+						edits = append(edits, textEdit{off(call.Pos()), off(call.End()), repl + strings.Repeat("\n", nl)})
+						notes = append(notes, fmt.Sprintf("expanded expression helper %s at %s", c.obj.Name(), fset.PositionFor(call.Pos(), false)))
 					}
 					return true
 				})
@@ -927,4 +951,124 @@ func newFuncKeys(modPkgs []*packages.Package) map[string]bool {
 		}
 	}
 	return out
+}
+
+// exprExpansion: the text that replaces a call of a single-return-expression helper inside an expression.
+func exprExpansion(call *ast.CallExpr, c *inlineCand, info *types.Info, fset *token.FileSet, readSrc func(string) []byte, sameFile bool, callerPkgs map[string]string) (string, bool) {
+	if len(c.fd.Body.List) != 1 || c.fd.Type.Results == nil || len(c.fd.Type.Results.List) != 1 || len(c.fd.Type.Results.List[0].Names) > 1 {
+		return "", false
+	}
+	ret, ok := c.fd.Body.List[0].(*ast.ReturnStmt)
+	if !ok || len(ret.Results) != 1 {
+		return "", false
+	}
+	if !sameFile {
+		for n, pth := range usedPkgNames(c.fd, info) {
+			if callerPkgs[n] != pth {
+				return "", false
+			}
+		}
+	}
+	ctf := fset.File(c.fd.Pos())
+	csrc := readSrc(ctf.Name())
+	atf := fset.File(call.Pos())
+	asrc := readSrc(atf.Name())
+	if csrc == nil || asrc == nil {
+		return "", false
+	}
+	var pure func(e ast.Expr) bool
+	pure = func(e ast.Expr) bool {
+		switch x := e.(type) {
+		case *ast.Ident, *ast.BasicLit:
+			return true
+		case *ast.ParenExpr:
+			return pure(x.X)
+		case *ast.SelectorExpr:
+			return pure(x.X)
+		case *ast.StarExpr:
+			return pure(x.X)
+		case *ast.IndexExpr:
+			return pure(x.X) && pure(x.Index)
+		case *ast.SliceExpr:
+			return pure(x.X) && (x.Low == nil || pure(x.Low)) && (x.High == nil || pure(x.High)) && (x.Max == nil || pure(x.Max))
+		case *ast.UnaryExpr:
+			return x.Op != token.ARROW && pure(x.X)
+		case *ast.BinaryExpr:
+			return pure(x.X) && pure(x.Y)
+		case *ast.CallExpr:
+			if tv, ok := info.Types[x.Fun]; ok && tv.IsType() && len(x.Args) == 1 {
+				return pure(x.Args[0])
+			}
+			if id, ok := x.Fun.(*ast.Ident); ok && (id.Name == "len" || id.Name == "cap") && len(x.Args) == 1 {
+				if _, isBuiltin := info.Uses[id].(*types.Builtin); isBuiltin {
+					return pure(x.Args[0])
+				}
+			}
+		}
+		return false
+	}
+	// parameters -> argument text
+	sub := map[types.Object]string{}
+	k := 0
+	if c.fd.Type.Params != nil {
+		for _, fld := range c.fd.Type.Params.List {
+			if len(fld.Names) == 0 {
+				return "", false
+			}
+			for _, nm := range fld.Names {
+				if k >= len(call.Args) || !pure(call.Args[k]) {
+					return "", false
+				}
+				at := string(asrc[atf.Offset(call.Args[k].Pos()):atf.Offset(call.Args[k].End())])
+				if strings.Contains(at, "//") || strings.Contains(at, "\n") {
+					return "", false
+				}
+				pt := string(csrc[ctf.Offset(fld.Type.Pos()):ctf.Offset(fld.Type.End())])
+				if tv, ok := info.Types[call.Args[k]]; ok && tv.Value != nil {
+					at = "(" + pt + ")(" + at + ")" // a constant keeps the parameter's type
+				} else {
+					at = "(" + at + ")"
+				}
+				if o := info.Defs[nm]; o != nil {
+					sub[o] = at
+				}
+				k++
+			}
+		}
+	}
+	if k != len(call.Args) || call.Ellipsis.IsValid() {
+		return "", false
+	}
+	var tes []textEdit
+	okSub := true
+	ast.Inspect(ret.Results[0], func(n ast.Node) bool {
+		switch x := n.(type) {
+		case *ast.FuncLit:
+			okSub = false
+		case *ast.Ident:
+			if o := info.Uses[x]; o != nil {
+				if r, ok := sub[o]; ok {
+					tes = append(tes, textEdit{ctf.Offset(x.Pos()), ctf.Offset(x.End()), r})
+				}
+			}
+		}
+		return okSub
+	})
+	if !okSub {
+		return "", false
+	}
+	body := applyEdits(csrc, tes, ctf.Offset(ret.Results[0].Pos()), ctf.Offset(ret.Results[0].End()))
+	if body == "" || strings.Contains(body, "//") {
+		return "", false
+	}
+	if strings.ContainsAny(body, "\"`'") {
+		if strings.Contains(body, "\n") {
+			return "", false // a literal must not be re-spaced
+		}
+	} else {
+		body = strings.Join(strings.Fields(strings.ReplaceAll(body, "\n", " ")), " ")
+	}
+	rt := c.fd.Type.Results.List[0].Type
+	rtt := string(csrc[ctf.Offset(rt.Pos()):ctf.Offset(rt.End())])
+	return "(" + rtt + ")(" + body + ")", true
 }
